@@ -564,6 +564,20 @@ def assemble(unit_dir, out_path, probe=False):
     return asm, cfg
 
 
+def cut_items(relpath, selectors):
+    """verbatim text of the named items of a /repo file (for the Kani twin crates)"""
+    sf = source(relpath)
+    out = []
+    for sel in selectors:
+        try:
+            chain, it = sf.find(sel)
+        except KeyError as e:
+            raise LostAnchor('item not found: %s in %s (%s)' % (sel, relpath, e))
+        out.append('// ---- %s :: %s (lines %d-%d), verbatim\n' % (relpath, sel, sf.line_of(it.start), sf.line_of(it.end)))
+        out.append(sf.src[it.start:it.end] + '\n')
+    return ''.join(out)
+
+
 if __name__ == '__main__':
     a, _ = assemble(sys.argv[1], sys.argv[2])
     print(json.dumps({'items': a.items, 'dropped': a.dropped, 'erasure_ok': a.erasure_ok}, indent=1))
